@@ -1082,6 +1082,7 @@ fn emit_frag_print(out: &mut Out, case: &str, f: &Fragment<RawName>) -> Option<S
 
 /// `(sty parse-frag …)`: the real schema parser + to_json_schema.rs on a whole text against the model's parser
 fn emit_frag_parse(out: &mut Out, case: &str, text: &str) {
+    emit_frag_collect(out, case, text);
     let Some(toks) = lex(text) else { return };
     let annotated = toks.iter().any(|t| t == "at");
     let toks = drop_annotations(toks);
@@ -1117,6 +1118,196 @@ fn emit_frag_parse(out: &mut Out, case: &str, text: &str) {
     out.line(format!("(sty parse-frag (toks {}))", toks.join(" ")).replace("(toks )", "(toks)"), imp, format!("{case} parse-frag {text:?}"));
 }
 
+// ------------------------------------------------------------------------------------------------
+// `(sty collect-frag …)`: the BTreeMap collection of to_json_schema.rs with its duplicate detection
+// ------------------------------------------------------------------------------------------------
+
+/// class of the FIRST error of `Fragment::from_cedarschema_str`: `CedarSchemaError::Parsing(CedarSchemaParseError)` whose
+/// `errors()` is `CedarSchemaParseErrors::SyntaxError(_)` (→ syntax) or `CedarSchemaParseErrors::JsonError(ToJsonSchemaErrors)`,
+/// first element `ToJsonSchemaError::DuplicateDeclarations(_)` (→ dup-decl) / `ToJsonSchemaError::DuplicateNamespaces(_)`
+/// (→ dup-ns) / anything else (→ syntax).  Second component: the list also holds a `ToJsonSchemaError::ReservedName`.
+fn collect_err_class(e: &cedar_policy_core::validator::CedarSchemaError) -> (&'static str, bool) {
+    use cedar_policy_core::validator::cedar_schema::parser::CedarSchemaParseErrors as PE;
+    use cedar_policy_core::validator::CedarSchemaError as CE;
+    match e {
+        CE::Parsing(pe) => match pe.errors() {
+            PE::JsonError(errs) => {
+                let vs: Vec<String> = errs.iter().map(|x| variant_of(&format!("{x:?}"))).collect();
+                let reserved = vs.iter().any(|v| v == "ReservedName");
+                match vs.first().map(|x| x.as_str()) {
+                    Some("DuplicateDeclarations") => ("dup-decl", reserved),
+                    Some("DuplicateNamespaces") => ("dup-ns", reserved),
+                    _ => ("syntax", reserved),
+                }
+            }
+            _ => ("syntax", false),
+        },
+        _ => ("syntax", false),
+    }
+}
+
+/// does some SINGLE declaration (or namespace header) of the text fail to convert on its own?  (the real grammar, then the real
+/// `cedar_schema_to_json_schema` on one-declaration schemas; a duplicate inside one multi-name declaration does not count)
+fn has_conversion_error(text: &str) -> bool {
+    use cedar_policy_core::validator::cedar_schema::{parser::parse_schema, to_json_schema::cedar_schema_to_json_schema};
+    let Ok(Ok(schema)) = guard(|| parse_schema(text)) else { return false };
+    let bad = |one| match guard(|| cedar_schema_to_json_schema(one, ext()).map(|x| x.0)) {
+        Ok(Ok(_)) => false,
+        Ok(Err(errs)) => errs.iter().any(|x| !variant_of(&format!("{x:?}")).starts_with("Duplicate") || variant_of(&format!("{x:?}")) == "DuplicateContext" || variant_of(&format!("{x:?}")) == "DuplicatePrincipalOrResource"),
+        Err(_) => true,
+    };
+    for ns in &schema {
+        let mut hdr = ns.clone();
+        hdr.data.decls = vec![];
+        if bad(vec![hdr]) {
+            return true;
+        }
+        for d in &ns.data.decls {
+            let mut one = ns.clone();
+            one.data.decls = vec![d.clone()];
+            if bad(vec![one]) {
+                return true;
+            }
+        }
+    }
+    false
+}
+
+/// `(sty collect-frag (toks …))`: reply `(ok <frag in BTreeMap iteration order>)` | `(err dup-decl|dup-ns|syntax)`
+fn emit_frag_collect(out: &mut Out, case: &str, text: &str) {
+    let Some(toks) = lex(text) else { return };
+    let annotated = toks.iter().any(|t| t == "at");
+    let toks = drop_annotations(toks);
+    if toks.iter().any(|t| t == "at" || t == "lp" || t == "rp") {
+        return;
+    }
+    let imp = match guard(|| Fragment::<RawName>::from_cedarschema_str(text, ext()).map(|x| x.0)) {
+        Ok(Ok(f)) => match frag_sx(&f, false) {
+            Some(s) => format!("(ok {s})"),
+            None => return,
+        },
+        Ok(Err(e)) => {
+            let (class, reserved) = collect_err_class(&e);
+            if class == "syntax" && annotated {
+                // annotations are erased for the model: the rejection may be about them
+                out.count("model:collect-frag:skipped-annotated-rejected");
+                return;
+            }
+            if class != "syntax" && (reserved || has_conversion_error(text)) {
+                // Rust looks for duplicates BEFORE converting the declarations, the model converts first (SchemaCollect.lean header)
+                out.count("model:collect-frag:skipped-duplicate-and-conversion-error");
+                return;
+            }
+            format!("(err {class})")
+        }
+        Err(_) => {
+            out.propfail("schema parser panicked", case, text);
+            return;
+        }
+    };
+    out.nontrivial(&format!("collect-frag|{}", toks.join(" ")));
+    out.count(&format!("model:collect-frag:{}", if imp.starts_with("(ok") { "ok" } else { &imp[5..imp.len() - 1] }));
+    out.line(format!("(sty collect-frag (toks {}))", toks.join(" ")).replace("(toks )", "(toks)"), imp, format!("{case} collect-frag {text:?}"));
+}
+
+/// the top-level structure of a schema text: the declarations (start, end, inside a namespace block?) and the namespace blocks
+fn decl_spans(text: &str) -> (Vec<(usize, usize, bool)>, Vec<(usize, usize)>) {
+    let b = text.as_bytes();
+    let (mut decls, mut nss) = (Vec::new(), Vec::new());
+    let (mut i, mut depth, mut start) = (0usize, 0usize, 0usize);
+    let mut ns_start: Option<usize> = None;
+    let mut in_ns = false;
+    while i < b.len() {
+        match b[i] {
+            b'"' => {
+                i += 1;
+                while i < b.len() && b[i] != b'"' {
+                    i += if b[i] == b'\\' { 2 } else { 1 };
+                }
+            }
+            b'/' if b.get(i + 1) == Some(&b'/') => {
+                while i < b.len() && b[i] != b'\n' {
+                    i += 1;
+                }
+            }
+            b'n' if depth == 0 && !in_ns && text[i..].starts_with("namespace") && (i == 0 || !(b[i - 1].is_ascii_alphanumeric() || b[i - 1] == b'_'))
+                && !b.get(i + 9).map_or(false, |c| c.is_ascii_alphanumeric() || *c == b'_') && text[start..i].trim().chars().all(|c| c != ';') =>
+            {
+                // annotations before `namespace` belong to the block
+                ns_start = Some(start);
+                i += 8;
+            }
+            b'{' => {
+                if depth == 0 && ns_start.is_some() && !in_ns {
+                    in_ns = true;
+                    start = i + 1;
+                }
+                depth += 1;
+            }
+            b'}' => {
+                depth = depth.saturating_sub(1);
+                if depth == 0 && in_ns {
+                    if let Some(s) = ns_start.take() {
+                        nss.push((s, i + 1));
+                    }
+                    in_ns = false;
+                    start = i + 1;
+                }
+            }
+            b';' if depth == (if in_ns { 1 } else { 0 }) => {
+                decls.push((start, i + 1, in_ns));
+                start = i + 1;
+            }
+            _ => {}
+        }
+        i += 1;
+    }
+    (decls, nss)
+}
+
+/// texts with a repeated declaration (in the same namespace), a repeated namespace block, or both
+fn dup_texts(r: &mut Rng, text: &str) -> Vec<(&'static str, String)> {
+    let (decls, nss) = decl_spans(text);
+    let mut res = Vec::new();
+    let dup_decl = |r: &mut Rng, t: &str| -> Option<String> {
+        let (decls, _) = decl_spans(t);
+        if decls.is_empty() {
+            return None;
+        }
+        let (s, e, in_ns) = *r.pick(&decls);
+        // a bare declaration may be repeated anywhere at top level (all bare declarations form ONE namespace)
+        if !in_ns && r.chance(50) {
+            Some(format!("{t} {}", &t[s..e]))
+        } else {
+            Some(format!("{}{} {}{}", &t[..e], "", &t[s..e], &t[e..]))
+        }
+    };
+    if !decls.is_empty() {
+        if let Some(t) = dup_decl(r, text) {
+            res.push(("dup-decl", t));
+        }
+    }
+    if !nss.is_empty() {
+        let (s, e) = *r.pick(&nss);
+        let t = if r.chance(50) { format!("{text} {}", &text[s..e]) } else { format!("{} {text}", &text[s..e]) };
+        if let Some(t2) = dup_decl(r, &t) {
+            res.push(("dup-both", t2));
+        }
+        res.push(("dup-ns", t));
+    }
+    res
+}
+
+fn emit_dup_lines(out: &mut Out, r: &mut Rng, case: &str, text: &str) {
+    for (kind, t) in dup_texts(r, text) {
+        out.count(&format!("dup_family:{kind}"));
+        emit_frag_collect(out, &format!("{case} {kind}"), &t);
+        if r.chance(30) {
+            emit_frag_collect(out, &format!("{case} {kind} mutated"), &mutate_decl_text(r, &t));
+        }
+    }
+}
+
 /// single-token mutations at the declaration level
 fn mutate_decl_text(r: &mut Rng, text: &str) -> String {
     let reps: &[(&str, &str)] = &[
@@ -1150,6 +1341,9 @@ fn emit_frag_lines(out: &mut Out, r: &mut Rng, case: &str, f: &Fragment<RawName>
         if r.chance(50) {
             emit_frag_parse(out, case, &mutate_decl_text(r, t));
         }
+        emit_dup_lines(out, r, case, t);
+    } else if let Ok(Ok(printed)) = guard(|| f.to_cedarschema()) {
+        emit_dup_lines(out, r, case, &printed);
     }
 }
 
